@@ -425,6 +425,23 @@ func c11all(thorough bool, f func(v c11val, class string) bool) {
 			return
 		}
 	}
+	// strings written as raw (backtick) literals: the same characters as a quoted string, whatever the spelling
+	for _, body := range []string{`C:\new\table`, `say "hi"`, "two\nlines", `\u00e9\x41`, `100% %d`, `tab\there`, `a\`, `"`, `\"`, "line1\nline2 \"q\" \\"} {
+		body := body
+		for _, shape := range []string{"`B`", "[`B` 1]", "(hash k: `B`)", "(begin (defmap ranch) (ranch name:\"build\" path:`B`))", "(hash k: [`B` `B`])", "(concat `B` \"!\")"} {
+			script := strings.ReplaceAll(shape, "B", body)
+			v := c11val{"X:" + script, func(env *zygo.Zlisp) zygo.Sexp {
+				r := zy.Eval(env, script)
+				if !r.OK() {
+					return zygo.SexpNull
+				}
+				return r.Sexp
+			}}
+			if !f(v, "raw-string") {
+				return
+			}
+		}
+	}
 	// string keys (JSON-style source literals): JSON text only
 	for _, k := range []string{"k", "two words", "q\"uote", "back\\slash", "é", "\n", "", "Atype2", "1"} {
 		for _, a := range small {
